@@ -28,8 +28,29 @@ func conc(name, build string, cases, batch int64, par int, procs ...int) Mode {
 func tagged(m Mode) Mode           { m.NeedTag = true; return m }
 func withGo(m Mode, g string) Mode { m.Go = g; return m }
 
+// parProps: properties whose monitors are sequential; they get the extra mode "par"
+// (several sequential cases at the same time on separate goroutines, race build and
+// plain build) - see props.runPar.
+var parProps = map[string]bool{"C01": true, "C02": true, "C03": true, "C06": true, "C07": true, "C08": true, "C11": true,
+	"C12": true, "C13": true, "C14": true, "C15": true, "C16": true, "C20": true}
+
 // Plan returns the modes of a property in a tier ("quick" or "thorough").
 func Plan(prop, tier string) []Mode {
+	ms := plan0(prop, tier)
+	if parProps[prop] && len(ms) > 0 {
+		q := tier != "thorough"
+		n, b := int64(2000), int64(100)
+		if q {
+			n, b = 48, 6
+		}
+		ms = append(ms,
+			Mode{Name: "par", Build: "race", Cases: n, Batch: b, Par: 8, Procs: []int{4, 16, 2, 8}, WatchdogS: 300, HangIs: "inconclusive"},
+			Mode{Name: "par", Build: "plain", Cases: n, Batch: b, Par: 8, Procs: []int{16, 4, 2, 8}, WatchdogS: 300, HangIs: "inconclusive"})
+	}
+	return ms
+}
+
+func plan0(prop, tier string) []Mode {
 	q := tier != "thorough"
 	pick := func(quick, thorough int64) int64 {
 		if q {
@@ -40,7 +61,7 @@ func Plan(prop, tier string) []Mode {
 	_ = pick
 	switch prop {
 	case "C01":
-		return []Mode{seq("seq", pick(4000, 2000000), pick(250, 10000))}
+		return []Mode{seq("seq", pick(4000, 1000000), pick(250, 10000))}
 	case "C07":
 		return []Mode{seq("seq", pick(6000, 2500000), pick(400, 15000))}
 	case "C08":
